@@ -102,13 +102,15 @@ def run(ctx):
         for c in p.conds:
             t, o = c[0], c[1]
             if t[0] == "cmp":
+                def lit(x):
+                    return x[1] if x[0] == "lit" and isinstance(x[1], int) and not isinstance(x[1], bool) else None
                 if t[1] == "eq" and set((t[2], t[3])) == set((yes, ("lit", 0))) and o is False:
                     nonzero = True
-                if t[1] == "lt" and t[2] == ("lit", 0) and t[3] == yes and o is True:
+                # k < yes / k <= yes decided true
+                if t[3] == yes and lit(t[2]) is not None and o is True and ((t[1] == "lt" and lit(t[2]) >= 0) or (t[1] == "le" and lit(t[2]) >= 1)):
                     nonzero = True
-                if t[1] == "le" and t[2] == ("lit", 1) and t[3] == yes and o is True:
-                    nonzero = True
-                if t[1] == "le" and t[2] == yes and t[3] == ("lit", 0) and o is False:
+                # yes < k / yes <= k decided false
+                if t[2] == yes and lit(t[3]) is not None and o is False and ((t[1] == "lt" and lit(t[3]) >= 1) or (t[1] == "le" and lit(t[3]) >= 0)):
                     nonzero = True
         strict = r[0] == "cmp" and r[1] == "lt" and r[3] == yes
         floor1 = r[0] == "cmp" and r[1] == "le" and r[3] == yes and r[2][0] == "call" and r[2][1] == "max" and ("lit", 1) in r[2][2]
